@@ -25,7 +25,7 @@ ASSUMPTIONS = [
 def run(tier):
     name = "step_quick" if tier == "quick" else "step_thorough"
     jobs = [
-        Job("harness.c02", name, H.step_shards(name), 240 if tier == "quick" else 3000,
+        Job("harness.c02", name, H.step_shards(name), 240 if tier == "quick" else 900,
             bounds=dict(in_flight_frames="<=1" if tier == "quick" else "<=2", prior_yields="<=1" if tier == "quick" else "<=2",
                         opcode="all integers (symbolic)", functions=[f.__qualname__ for f in H.STEP_FUNCS], events=list(H.EVENTS),
                         values="atoms int/str/None/A(), list/dict of <=1 element"),
